@@ -3,5 +3,5 @@
 # so that /repo itself stays free for seeded-change experiments.  Results are NOT evidence.
 export VERIF_REPO_SRC="${VP_RUN_REPO:-/repo}/src"
 for p in "$@"; do
-  ./check "$p" --tier thorough 2>&1 | tail -12
+  ./check "$p" --tier thorough 2>&1 | grep -E "^(VIOLATION|HARNESS-ERROR|KNOWN-FINDING|\[C|  clause=|  detail=|  minimised|  unreached)" | cut -c1-700
 done
